@@ -174,12 +174,26 @@ pub fn display(form: &str, pairs: &str) -> String {
     .unwrap_or_else(|| "panic".into());
     let expect_json = serde_json::to_string(&text).unwrap();
     let ser_ok = json == expect_json;
-    let de_vec = res(guarded(|| serde_json::from_str::<ChemicalCompositionVec>(&expect_json)), |c| {
-        c.iter().map(|(k, v)| (k.element.symbol.clone(), k.isotope, *v)).collect()
-    });
-    let de_map = res(guarded(|| serde_json::from_str::<ChemicalCompositionMap>(&expect_json)), |c| {
-        c.iter().map(|(k, v)| (k.element.symbol.clone(), k.isotope, *v)).collect()
-    });
+    // "deserialize to equal values": whatever route the text takes to the Deserialize impl — borrowed from the input
+    // (from_str), transient (from_reader), owned (from_value), or written with \u escapes (not borrowable)
+    let escaped = format!("\"{}\"", text.chars().map(|c| format!("\\u{:04x}", c as u32)).collect::<String>());
+    let vec_ents = |c: &ChemicalCompositionVec| -> Vec<(String, u16, i32)> { c.iter().map(|(k, v)| (k.element.symbol.clone(), k.isotope, *v)).collect() };
+    let map_ents = |c: &ChemicalCompositionMap| -> Vec<(String, u16, i32)> { c.iter().map(|(k, v)| (k.element.symbol.clone(), k.isotope, *v)).collect() };
+    let routes_vec = vec![
+        res(guarded(|| serde_json::from_str::<ChemicalCompositionVec>(&expect_json)), vec_ents),
+        res(guarded(|| serde_json::from_reader::<_, ChemicalCompositionVec>(expect_json.as_bytes())), vec_ents),
+        res(guarded(|| serde_json::from_value::<ChemicalCompositionVec>(serde_json::Value::String(text.clone()))), vec_ents),
+        res(guarded(|| serde_json::from_str::<ChemicalCompositionVec>(&escaped)), vec_ents),
+    ];
+    let routes_map = vec![
+        res(guarded(|| serde_json::from_str::<ChemicalCompositionMap>(&expect_json)), map_ents),
+        res(guarded(|| serde_json::from_reader::<_, ChemicalCompositionMap>(expect_json.as_bytes())), map_ents),
+        res(guarded(|| serde_json::from_value::<ChemicalCompositionMap>(serde_json::Value::String(text.clone()))), map_ents),
+        res(guarded(|| serde_json::from_str::<ChemicalCompositionMap>(&escaped)), map_ents),
+    ];
+    let join = |v: Vec<String>| if v.iter().all(|x| *x == v[0]) { v[0].clone() } else { format!("routes-differ str={} reader={} value={} escaped={}", v[0], v[1], v[2], v[3]) };
+    let de_vec = join(routes_vec);
+    let de_map = join(routes_map);
     format!("{}\t{}\t{}\t{}\t{}", cps(&text), back, if ser_ok { "ser-ok".to_string() } else { format!("ser-bad {json}") }, de_vec, de_map)
 }
 
@@ -191,8 +205,15 @@ pub fn spec_serde(k: &str) -> String {
             Ok(j) => j,
             Err(e) => return format!("ser-err {e}"),
         };
+        let inner: String = serde_json::from_str::<String>(&j).unwrap_or_default();
+        let escaped = format!("\"{}\"", inner.chars().map(|c| format!("\\u{:04x}", c as u32)).collect::<String>());
+        let others = [
+            serde_json::from_reader::<_, ElementSpecification>(j.as_bytes()).map(|b| b == k).unwrap_or(false),
+            serde_json::from_value::<ElementSpecification>(serde_json::Value::String(inner.clone())).map(|b| b == k).unwrap_or(false),
+            serde_json::from_str::<ElementSpecification>(&escaped).map(|b| b == k).unwrap_or(false),
+        ];
         match serde_json::from_str::<ElementSpecification>(&j) {
-            Ok(b) => format!("{} {}:{} eq={}", j, b.element.symbol, b.isotope, b == k),
+            Ok(b) => format!("{} {}:{} eq={}", j, b.element.symbol, b.isotope, b == k && others.iter().all(|x| *x)),
             Err(e) => format!("{j} de-err {e}"),
         }
     })
